@@ -519,7 +519,13 @@ func (h *hintMgr) Merge(forGC bool) (err error) {
 
 func (h *hintMgr) set(ki *KeyInfo, meta *Meta, pos Position, recSize uint32, reason string) (rotated bool) {
 	it := newHintItem(ki.KeyHash, meta.Ver, meta.ValueHash, Position{0, pos.Offset}, ki.StringKey)
-	_, ok := h.collisions.get(ki.KeyHash, ki.StringKey)
+	old, ok := h.collisions.get(ki.KeyHash, ki.StringKey)
+	if ok && reason == "gc" && old == nil {
+		// GC keeps a record of a colliding hash that it cannot judge as a
+		// conservative guess: it may be a superseded version, so it must not
+		// become the table's (authoritative) entry for the key
+		ok = false
+	}
 	if ok {
 		it2 := *it
 		it2.Pos.ChunkID = pos.ChunkID
